@@ -62,3 +62,13 @@ CORPUS += [
     Mut('c12-benign-event-counts-by-bincount', 'torchtree/evolution/bdsk.py', 'PiecewiseConstantBirthDeath.log_prob', 'dtimes = (origin / m).expand(origin.shape[:-1] + (m,))',
         'dtimes = (origin / m).expand(origin.shape[:-1] + (m,))\nacc = torch.bincount(torch.zeros(m, dtype=torch.long), minlength=m)', benign=True),
 ]
+CORPUS += [
+    Mut('c12-rates-left-out-when-they-equal-one', 'torchtree/evolution/tree_likelihood.py', '', "        mats = self.subst_model.p_t(bls.reshape(sample_shape + (-1, 1)) * rates)\n",
+        "        bls = bls.reshape(sample_shape + (-1, 1))\n        if rates.shape[-1] > 1 or torch.any(rates != 1.0):\n            bls = bls * rates\n        mats = self.subst_model.p_t(bls)\n", mode='text',
+        expect=[('C12.D', 'TreeLikelihoodModel._call::value-branch')]),
+    Mut('c12-view-setter-always-outside-the-graph', 'torchtree/core/parameter.py', '', "        if self.parameter.requires_grad:\n            # a leaf tensor that requires grad cannot be modified in place\n            with torch.no_grad():\n                self.parameter.tensor[..., self.indices] = tensor\n        else:\n            self.parameter.tensor[..., self.indices] = tensor\n",
+        "        with torch.no_grad():\n            self.parameter.tensor[..., self.indices] = tensor\n", mode='text', expect=[('C12.D', 'torchtree.core.parameter.ViewParameter.tensor::no_grad')]),
+    Mut('c12-eigh-of-the-lower-triangle', 'torchtree/evolution/substitution_model/abstract.py', '', "        return torch.linalg.eigh(Q)\n", "        return torch.linalg.eigh(torch.tril(Q))\n", mode='text',
+        expect=[('C12.D', 'eigh-of-a-triangle')]),
+    Mut('c12-benign-eigh-with-the-triangle-named', 'torchtree/evolution/substitution_model/abstract.py', '', "        return torch.linalg.eigh(Q)\n", "        return torch.linalg.eigh(Q, UPLO='L')\n", mode='text', benign=True),
+]
